@@ -8,7 +8,10 @@
   `cfg_reuse_attrs` (the ONLY `as_dict` name whose getter calls `_raise_if_pid_reused()` is `ppid`:
   the region of known finding C04-reuse-check-skips-pid must not grow), `cfg_no_access_attrs`
   (`as_dict` answers exactly `pid` and `create_time` from the object), `cfg_names_valid` (those three
-  are valid names), `cfg_pop_guarded` (fix 4d302c5). The order in which `process_iter` drains
+  are valid names), `cfg_pop_guarded` (fix 4d302c5), `cfg_flag_set_ops` / `cfg_pmap_ops` (EVERY use of the two
+  module globals `_pids_reused` / `_pmap` in the package: `is_running()` adds, the prologue of `process_iter`
+  tests and pops, `cache_clear()` clears `_pmap` only — the frame the flag-lifetime theorems
+  `C04_flag_kept_by_every_other_op` … `C04_found_recycled_never_yielded_again` rest on). The order in which `process_iter` drains
   `_pids_reused` (`cfg.drainFirst`, lead L19 — a known finding, its repair is pinned by an
   existing test) is NOT an obligation: it selects which model the driver runs. Safety theorems hold
   for both orders; completeness at full strength for the repaired order only (`…_repaired`), refuted
@@ -18,6 +21,7 @@
 import PsutilModel.Proofs.C04Whole
 import PsutilModel.Proofs.C04Fine
 import PsutilModel.Proofs.C04Flag
+import PsutilModel.Proofs.C04Keep
 import PsutilModel.Model.C04Gen
 namespace Psutil.C04
 open Spec
@@ -1291,5 +1295,162 @@ theorem C04_object_pid_stable (c : Cfg) (s : St) (ho : ObjInv s) (h : List Op) (
     survives `_pids_reused.pop()` on a set another thread emptied (so `C04_drain_guarded_safe`, not
     `C04_drain_race_counterexample`, describes the code as it is) -/
 theorem cfg_pop_guarded : cfg.popGuarded = true := by decide
+
+/-! ## seeded round 5 — the LIFETIME of a "recycled" flag: `cache_clear()`, generators in flight
+
+    Statement clause: "an entry whose PID was found recycled by is_running() is replaced by a fresh object",
+    quantified over "partially consumed iterators, cache_clear() calls". What carries the clause between the
+    `is_running()` call and the next iteration is the flag in `_pids_reused`; the theorems below quantify over
+    EVERYTHING that may happen in between (any operations, any number of generators in flight that advance,
+    finish or are closed and thereby republish their private maps, `cache_clear()` at any point). -/
+
+/-- proof obligation on the translator's fact `flagSetOps`: EVERY use of the module global `_pids_reused` in the
+    package — `Process.is_running` adds to it, `process_iter` tests it and pops from it, nothing else touches it
+    (in particular `process_iter.cache_clear` does not). This is the frame `step_flagSub` transcribes: in the model
+    only `isRunningObj` adds a flag and only `prologue` removes flags. Stops building as soon as any other code
+    reads, empties, re-binds or aliases the set. -/
+theorem cfg_flag_set_ops :
+    Gen.C04.flagSetOps = ["<module>:init", "Process.is_running:add", "process_iter:pop", "process_iter:truth"] := by
+  decide
+
+/-- the same for `_pmap`: copied and re-bound by `process_iter` (prologue / `finally`), cleared by
+    `process_iter.cache_clear` — the three places `prologue`, `finish` and `step … .cacheClear` transcribe -/
+theorem cfg_pmap_ops :
+    Gen.C04.pmapOps = ["<module>:init", "process_iter.cache_clear:clear", "process_iter:copy", "process_iter:global",
+                       "process_iter:store"] := by
+  decide
+
+/-- `is_running()` on object `o` (reference `r`) FINDS its PID recycled: the object is live so far (neither
+    `_gone` nor `_pid_reused`) and the table holds the number as another incarnation (`Spec.Recycled`) -/
+def FindsRecycled (s : St) (r : Ref) (o : PObj) : Prop :=
+  s.objs[r]? = some o ∧ o.gone = false ∧ o.reused = false ∧ Recycled s.k o.pid o.ident
+
+/-- **C04_flag_kept_by_every_other_op.** For every configuration, state and operation other than the first
+    `next()` of a generator (the only one that runs the prologue's drain loop): every flagged PID stays flagged.
+    `cache_clear()`, `next()` / `close()` of generators in flight (their `finally` republishes the private map),
+    `is_running()`, `pids()`, `pid_exists()`, creating generators, kernel events — none of them loses a flag. -/
+theorem C04_flag_kept_by_every_other_op (c : Cfg) (s : St) (op : Op) (h : ¬ StartsIter s op) (p : Nat)
+    (hp : p ∈ s.flagged) : p ∈ (step c s op).1.flagged :=
+  step_flagSub c s op h p hp
+
+/-- `cache_clear()` empties the cache and nothing else: the flags are kept (model side of `cfg_flag_set_ops`) -/
+theorem C04_cache_clear_keeps_flags (c : Cfg) (s : St) :
+    (step c s .cacheClear).1.pmap = [] ∧ (step c s .cacheClear).1.flagged = s.flagged
+    ∧ (step c s .cacheClear).1.gens = s.gens ∧ (step c s .cacheClear).1.objs = s.objs :=
+  ⟨rfl, rfl, rfl, rfl⟩
+
+/-- **C04_found_recycled_stays_flagged.** `is_running()` finds the PID of `o` recycled: it answers False, and
+    after ANY continuation `h0` in which no iteration starts — `cache_clear()` calls, generators in flight that
+    are advanced, exhausted or closed, further `is_running()` / `pids()` / `pid_exists()` calls, kernel events,
+    new generator objects — the PID is still flagged. -/
+theorem C04_found_recycled_stays_flagged (c : Cfg) (s : St) (r : Ref) (o : PObj) (hf : FindsRecycled s r o)
+    (h0 : List Op) (hns : NoStart c (step c s (.isRunning r)).1 h0) :
+    (step c s (.isRunning r)).2 = .bool false
+    ∧ o.pid ∈ (runAll c (step c s (.isRunning r)).1 h0).flagged := by
+  obtain ⟨hr, hg, hu, b, hs, hne⟩ := hf
+  obtain ⟨h1, h2⟩ := isRunning_finds_recycled c s r o hr hg hu b hs hne
+  exact ⟨h1, runAll_flagSub c h0 _ hns _ h2⟩
+
+/-- **C04_found_recycled_never_yielded_again** (the clause, either prologue order, any attrs). From any state
+    satisfying the invariants (every reachable one: `runAll_inv`, `reachable_objInv`): `is_running()` finds the
+    PID of object `r` recycled; then anything happens except the start of an iteration (`h0` as above:
+    `cache_clear()` while generators are in flight, those generators finishing and republishing the stale entry,
+    …); then an iteration starts (generator `g`, first `next()`) and is consumed by `next(g)` calls with kernel
+    events anywhere. That iteration NEVER yields the stale object `r` for the PID: whatever it yields for it is a
+    reference that did not exist when it started. -/
+theorem C04_found_recycled_never_yielded_again (c : Cfg) (s : St) (hi : Inv s) (ho : ObjInv s) (r : Ref) (o : PObj)
+    (hf : FindsRecycled s r o) (h0 : List Op) (hns : NoStart c (step c s (.isRunning r)).1 h0)
+    (g : Nat) (gen : Gen) (hg : (runAll c (step c s (.isRunning r)).1 h0).gens[g]? = some gen) (hst : gen.st = .fresh)
+    (mid0 : List KEv) (h : List Op) (hops : IterOps g h) :
+    ∀ r' ∈ yieldRefsOf c (runAll c (step c s (.isRunning r)).1 h0) g o.pid (.next g mid0 :: h),
+      r < r' ∧ s.objs.length ≤ r' := by
+  intro r' hr'
+  have hp := (C04_found_recycled_stays_flagged c s r o hf h0 hns).2
+  have hi0 : Inv (step c s (.isRunning r)).1 := (step_inv c s _ hi).1
+  have ho0 : ObjInv (step c s (.isRunning r)).1 := step_objInv c s _ ho
+  have hi1 := runAll_inv c h0 _ hi0
+  have ho1 := runAll_objInv c h0 _ ho0
+  have hl0 := step_objs_length_le c s (.isRunning r) ho
+  have hl1 := (runAll_objsExt c h0 _ ho0).length_le
+  have hfresh := flagged_iteration_fresh c _ hi1 ho1 g gen hg hst o.pid hp mid0 h hops r' hr'
+  have hlt : r < s.objs.length := by
+    obtain ⟨hlt, _⟩ := List.getElem?_eq_some_iff.mp hf.1
+    exact hlt
+  have hle : s.objs.length ≤ r' := by omega
+  exact ⟨Nat.lt_of_lt_of_le hlt hle, hle⟩
+
+/-- **C04_found_recycled_replaced** — the whole clause for the shipped order: found recycled by `is_running()`;
+    anything but an iteration start (`h0`); iteration n (the stale entry still — or again, republished by a
+    generator that was in flight — cached) does not yield the PID and drops the entry; iteration n+1 yields for
+    it only a FRESH object of that PID. (`C04_found_recycled_stays_flagged` composed with
+    `C04_recycled_replaced_two_iterations`.) -/
+theorem C04_found_recycled_replaced (c : Cfg) (hd : c.drainFirst = false) (s : St) (hi : Inv s) (ho : ObjInv s)
+    (r : Ref) (o : PObj) (hf : FindsRecycled s r o) (h0 : List Op) (hns : NoStart c (step c s (.isRunning r)).1 h0)
+    (g : Nat) (gen : Gen) (hg : (runAll c (step c s (.isRunning r)).1 h0).gens[g]? = some gen) (hst : gen.st = .fresh)
+    (hne : (runAll c (step c s (.isRunning r)).1 h0).k.listdir ≠ [])
+    (hc : ((runAll c (step c s (.isRunning r)).1 h0).pmap.get o.pid).isSome)
+    (mid0 : List KEv) (h1 : List Op) (hops1 : IterOps g h1)
+    (gen1 : Gen)
+    (hend : (runAll c (runAll c (step c s (.isRunning r)).1 h0) (.next g mid0 :: h1)).gens[g]? = some gen1)
+    (hdone : gen1.st = .done) (a' : Attrs)
+    (hl : o.pid ∈ (runAll c (runAll c (step c s (.isRunning r)).1 h0) (.next g mid0 :: h1)).k.listdir)
+    (mid1 : List KEv) (h2 : List Op)
+    (hops2 : IterOps (runAll c (runAll c (step c s (.isRunning r)).1 h0) (.next g mid0 :: h1)).gens.length h2) :
+    let s0 := runAll c (step c s (.isRunning r)).1 h0
+    let s1 := runAll c s0 (.next g mid0 :: h1)
+    let s2 := (step c s1 (.iter a')).1
+    let g' := s1.gens.length
+    o.pid ∉ yieldsOf c s0 g (.next g mid0 :: h1)
+    ∧ ∀ r' ∈ yieldRefsOf c s2 g' o.pid (.next g' mid1 :: h2),
+        s1.objs.length ≤ r' ∧ ∃ o', (runAll c s2 (.next g' mid1 :: h2)).objs[r']? = some o' ∧ o'.pid = o.pid := by
+  have hp := (C04_found_recycled_stays_flagged c s r o hf h0 hns).2
+  have hi0 : Inv (step c s (.isRunning r)).1 := (step_inv c s _ hi).1
+  have ho0 : ObjInv (step c s (.isRunning r)).1 := step_objInv c s _ ho
+  have hi1 := runAll_inv c h0 _ hi0
+  have ho1 := runAll_objInv c h0 _ ho0
+  exact C04_recycled_replaced_two_iterations c hd _ hi1 ho1 g gen hg hst hne o.pid hp hc mid0 h1 hops1 gen1 hend hdone
+    a' hl mid1 h2 hops2
+
+/-- the seeded-round-5 history up to the `cache_clear()`: iterate {1,5,9}; PID 5 is recycled; a second generator
+    is started and yields PID 1 (it holds its private copy of the table, stale entry for 5 included);
+    `is_running()` on the old object of PID 5 finds it recycled -/
+def histInFlight : List Op :=
+  fullIter 0 ++ [.kev (.exit 5), .kev (.spawn p5'), .iter .none, .next 1 [], .isRunning 1]
+
+/-- …and after it: the generator in flight is exhausted (republishing the stale entry), two more iterations -/
+def histAfterClear : List Op := [.next 1 [], .next 1 [], .next 1 []] ++ fullIter 2 ++ fullIter 3
+
+/-- what a `cache_clear()` that ALSO emptied `_pids_reused` would leave behind -/
+def clearDroppingFlags (s : St) : St := { s with pmap := [], flagged := [] }
+
+/-- non-vacuity of the hypotheses above on that history: `is_running()` there does find PID 5 recycled, and
+    `cache_clear`, the three `next(1)` of the generator in flight and the creation of generator 2 start no iteration -/
+example :
+    FindsRecycled (runAll shipped (St.init k159) (histInFlight.dropLast)) 1 ⟨5, 105, false, false⟩
+    ∧ NoStart shipped (runAll shipped (St.init k159) histInFlight)
+        [.cacheClear, .next 1 [], .next 1 [], .next 1 [], .iter .none] := by
+  refine ⟨⟨by decide, rfl, rfl, 999, by decide, by decide⟩, ?_⟩
+  simp only [NoStart, StartsIter, and_true, not_false_eq_true, true_and]
+  decide
+
+/-- **why `cfg_flag_set_ops` is an obligation** (seeded change C04-4). The code as it is (`cache_clear()` keeps
+    the flags): the generator in flight still yields the stale object 1 for PID 5 — it started before the
+    `is_running()` call — and republishes it, but the next iteration drops it (yields 1, 9: known finding
+    C04-flagged-pid-skipped) and the one after yields the fresh object 3. With a `cache_clear()` that also empties
+    `_pids_reused`, EVERY later iteration yields the stale object 1 for PID 5: the object's own `_pid_reused` makes
+    `is_running()` return early, so the PID is never flagged again. -/
+theorem C04_clear_dropping_flags_counterexample :
+    let s := runAll shipped (St.init k159) histInFlight
+    trace shipped (step shipped s .cacheClear).1 histAfterClear
+        = [.yield 1 5 none, .yield 2 9 none, .stop,
+           .gen 2, .yield 0 1 none, .yield 2 9 none, .stop, .stop,
+           .gen 3, .yield 0 1 none, .yield 3 5 none, .yield 2 9 none, .stop]
+    ∧ trace shipped (clearDroppingFlags s) histAfterClear
+        = [.yield 1 5 none, .yield 2 9 none, .stop,
+           .gen 2, .yield 0 1 none, .yield 1 5 none, .yield 2 9 none, .stop,
+           .gen 3, .yield 0 1 none, .yield 1 5 none, .yield 2 9 none, .stop]
+    ∧ (step shipped (runAll shipped (clearDroppingFlags s) histAfterClear) (.isRunning 1)).2 = .bool false
+    ∧ (step shipped (runAll shipped (clearDroppingFlags s) histAfterClear) (.isRunning 1)).1.flagged = [] := by
+  decide
 
 end Psutil.C04
